@@ -155,6 +155,60 @@ def additional_for(ctx, D, items):
     return [live], D2, wire, t["name"]
 
 
+def _named(n):
+    return {"k": "named", "n": n}
+
+
+INJECTED_WIRE = [
+    {"kind": "scalar", "name": "InjS", "desc": "injected scalar", "interfaces": [], "fields": [], "members": [], "values": [], "input_fields": []},
+    {"kind": "enum", "name": "InjE", "desc": None, "interfaces": [], "fields": [], "members": [], "input_fields": [],
+     "values": [{"name": "IV0", "value": 10, "deprecated": None, "desc": None}, {"name": "IV1", "value": 11, "deprecated": None, "desc": None}]},
+    {"kind": "input", "name": "InjI", "desc": "injected input", "interfaces": [], "fields": [], "members": [], "values": [],
+     "input_fields": [{"name": "a", "type": _named("Int"), "has_default": True, "default_value": 1, "desc": None},
+                      {"name": "e", "type": _named("InjE"), "has_default": False, "default_value": None, "desc": None}]},
+    {"kind": "object", "name": "InjO", "desc": None, "interfaces": [], "members": [], "values": [], "input_fields": [],
+     "fields": [{"name": "x", "type": _named("Int"), "args": [], "deprecated": None, "desc": None},
+                {"name": "e", "type": _named("InjE"), "args": [], "deprecated": "gone", "desc": None}]},
+]
+
+
+def injected_for(ctx, D, items):
+    """Types supplied through `additional_types`, NOT declared in the document and referenced ONLY from `extend` blocks
+    (field types, argument types, defaults that must be coerced with the injected enum / input object).
+    -> (live types, items + the extension blocks, declared content, wire descriptions)"""
+    import copy
+    q = D["query"]
+    ext_fields = [
+        {"name": "inj", "desc": None, "type": _named("InjO"), "dirs": [],
+         "args": [{"name": "i", "desc": None, "type": _named("InjI"), "dirs": [],
+                   "default": {"k": "obj", "fs": [{"name": "e", "value": {"k": "enum", "v": "IV1"}}]}},
+                  {"name": "s", "desc": None, "type": _named("InjS"), "default": None, "dirs": []},
+                  {"name": "e", "desc": None, "type": {"k": "nonNull", "t": _named("InjE")}, "default": {"k": "enum", "v": "IV0"}, "dirs": []}]},
+        {"name": "injs", "desc": None, "type": {"k": "list", "t": {"k": "nonNull", "t": _named("InjS")}}, "args": [], "dirs": []},
+    ]
+    blocks = [{"k": "ext", "kind": "object", "name": q, "desc": None, "interfaces": [], "fields": ext_fields, "members": [], "values": [],
+               "input_fields": [], "dirs": []}]
+    inputs = [t for t in D["types"] if t["kind"] == "input"]
+    if inputs and ctx.rng.random() < 0.6:
+        t = ctx.rng.choice(inputs)
+        blocks.append({"k": "ext", "kind": "input", "name": t["name"], "desc": None, "interfaces": [], "fields": [], "members": [], "values": [],
+                       "input_fields": [{"name": "injected", "desc": None, "type": _named("InjI"), "default": None, "dirs": []}], "dirs": []})
+    items2 = items + blocks
+    # declared content: the document's own content + the supplied types (as the library would dump them)
+    D2 = sdl.declared(items2)
+    D2["types"] += [
+        {"kind": "scalar", "name": "InjS", "desc": "injected scalar", "interfaces": [], "fields": [], "members": [], "values": []},
+        {"kind": "enum", "name": "InjE", "desc": None, "interfaces": [], "fields": [], "members": [],
+         "values": [{"name": "IV0", "value": 10, "deprecated": None, "desc": None}, {"name": "IV1", "value": 11, "deprecated": None, "desc": None}]},
+        {"kind": "input", "name": "InjI", "desc": "injected input", "interfaces": [], "members": [], "values": [],
+         "fields": [{"name": "a", "type": ("named", "Int"), "default": "1", "desc": None}, {"name": "e", "type": ("named", "InjE"), "default": None, "desc": None}]},
+        {"kind": "object", "name": "InjO", "desc": None, "interfaces": [], "members": [], "values": [],
+         "fields": [{"name": "x", "type": ("named", "Int"), "args": [], "deprecated": None, "desc": None},
+                    {"name": "e", "type": ("named", "InjE"), "args": [], "deprecated": "gone", "desc": None}]},
+    ]
+    return _live_additional(INJECTED_WIRE), items2, D2, copy.deepcopy(INJECTED_WIRE)
+
+
 # ---------------------------------------------------------------------------
 
 class Batch:
@@ -301,6 +355,17 @@ def run_generated(ctx, batch):
                 if exp2 is not None:
                     its = sdl.permute(ctx.rng, items)
                     check_valid(ctx, batch, sdl.render(its), its, exp2, "additional_types", additional=live, wire_additional=wire)
+        # supplied types that only the extension blocks refer to
+        if s8_safe and ctx.rng.random() < 0.4:
+            live, items2, D3, wire = injected_for(ctx, D, items)
+            try:
+                exp3 = sdl.expected_dump(D3)
+            except sdl.Invalid:
+                exp3 = None
+            if exp3 is not None:
+                its = sdl.permute(ctx.rng, items2)
+                ctx.stat("additional_types:referenced-from-extensions-only")
+                check_valid(ctx, batch, sdl.render(its), its, exp3, "additional_types-ext-only", additional=live, wire_additional=wire)
         if k < 2:
             ctx.sample({"sdl": first_text[:1500], "definitions": len(items)})
 
@@ -589,11 +654,35 @@ def run_model(ctx, batch):
 
 
 def _live_additional(wire):
-    from py_gql.schema import EnumType
+    """Live library types from their wire descriptions (references: built-in scalars or other supplied types)."""
+    from py_gql import schema as S
+    reg = {x.name: x for x in S.SPECIFIED_SCALAR_TYPES}
+
+    def ty(j):
+        if j["k"] == "named":
+            return reg[j["n"]]
+        return (S.ListType if j["k"] == "list" else S.NonNullType)(ty(j["t"]))
+
+    def lazy(j):
+        return lambda: ty(j)
     out = []
     for t in wire or []:
-        if t["kind"] == "enum":
-            out.append(EnumType(t["name"], [(v["name"], v["value"]) for v in t["values"]], description=t.get("desc")))
+        k, n, d = t["kind"], t["name"], t.get("desc")
+        if k == "enum":
+            reg[n] = S.EnumType(n, [S.EnumValue(v["name"], v["value"], deprecation_reason=v.get("deprecated"), description=v.get("desc"))
+                                    for v in t["values"]], description=d)
+        elif k == "scalar":
+            reg[n] = S.ScalarType(n, serialize=lambda x: x, parse=lambda x: x, parse_literal=lambda node, _v=None: node.value, description=d)
+        elif k == "input":
+            reg[n] = S.InputObjectType(n, (lambda t=t: [S.InputField(f["name"], lazy(f["type"]), description=f.get("desc"),
+                                                                     **({"default_value": f["default_value"]} if f["has_default"] else {}))
+                                                        for f in t["input_fields"]]), description=d)
+        elif k == "object":
+            reg[n] = S.ObjectType(n, (lambda t=t: [S.Field(f["name"], lazy(f["type"]), description=f.get("desc"),
+                                                           deprecation_reason=f.get("deprecated")) for f in t["fields"]]), description=d)
+        else:
+            continue
+        out.append(reg[n])
     return out or None
 
 
